@@ -2624,6 +2624,12 @@ class SlicedMemoryIO(object):
                 n_bytes, new_n_bytes), TruncationWarning, stacklevel=3)
             n_bytes = new_n_bytes
 
+        # Nothing can be read from before the start of the region either
+        if self._offset < 0 and n_bytes > 0:
+            warnings.warn("read truncated from {} to 0 bytes".format(n_bytes),
+                          TruncationWarning, stacklevel=3)
+            n_bytes = 0
+
         if n_bytes <= 0:
             return b''
 
@@ -2656,8 +2662,15 @@ class SlicedMemoryIO(object):
         int
             Number of bytes written.
         """
+        if self._offset < 0 and len(bytes) > 0:
+            # Nothing can be written before the start of the region
+            warnings.warn("write truncated from {} to 0 bytes".format(
+                len(bytes)), TruncationWarning, stacklevel=3)
+            bytes = b''
+
         if self.address + len(bytes) > self._end_address:
-            n_bytes = self._end_address - self.address
+            # NB: The cursor may lie beyond the end of the region
+            n_bytes = max(0, self._end_address - self.address)
 
             warnings.warn("write truncated from {} to {} bytes".format(
                 len(bytes), n_bytes), TruncationWarning, stacklevel=3)
